@@ -68,7 +68,16 @@ def invocation(root, proj, inv):
     cwdk, spell = inv
     cwd = {"cfgdir": proj, "parent": os.path.dirname(proj), "root": "/"}[cwdk]
     cfg = os.path.join(proj, "Breadlog.yaml")
-    if spell == "bare":
+    if spell == "linkcfg":
+        # the real file lives in a sibling directory that has its own (out of scope) src tree
+        shared = os.path.join(os.path.dirname(proj), "shared")
+        os.makedirs(os.path.join(shared, "src"), exist_ok=True)
+        os.replace(cfg, os.path.join(shared, "Breadlog.yaml"))
+        os.symlink("../shared/Breadlog.yaml", cfg)
+        with open(os.path.join(shared, "src", "trap.rs"), "w") as fh:
+            fh.write(STMT.format(997))
+        arg = os.path.relpath(cfg, cwd) if cwdk != "cfgdir" else "Breadlog.yaml"
+    elif spell == "bare":
         arg = "Breadlog.yaml"
     elif spell == "abs":
         arg = cfg
@@ -133,6 +142,22 @@ def run_case(job):
         else:
             if r2.exit_class == 0 or r1.exit_class == 0:
                 problems.append(("C16", "no in-scope files but exit status check=%s edit=%s" % (r1.exit_class, r2.exit_class)))
+        # a file that appears later with an old modification time (moved in, restored from an archive) is in scope too
+        if expected and case["exts"] in (["default"], ["rs"], ["rs", "txt"]):
+            srcdir = os.path.join(proj, ".src" if case["sd"] == "hidden" else "src")
+            late = os.path.join(srcdir, "late.rs")
+            with open(late, "w") as fh:
+                fh.write(STMT.format(555))
+            old = os.stat(late).st_mtime - 7200
+            os.utime(late, (old, old))
+            r3 = bl.run_breadlog(binary, arg, check=True, tmpdir=tmp, roots=(), shim=False, cwd=cwd, timeout=60)
+            scanned3 = set()
+            for p3 in r3.per_file_totals():
+                ap = os.path.normpath(p3 if os.path.isabs(p3) else os.path.join(cwd, p3))
+                scanned3.add(os.path.relpath(ap, proj))
+            want = os.path.relpath(late, proj)
+            if want not in scanned3 or r3.exit_class != "nonzero":
+                problems.append(("C15", "an in-scope file with an old modification time added after the first run was not scanned (%s, exit %s)" % (sorted(scanned3), r3.exit_class)))
         if cwd != proj and os.path.lexists(cwd_lock) and not cwd_lock_before:
             problems.append(("C15", "a Breadlog.lock appeared in the current directory %s" % cwd))
             try:
